@@ -71,3 +71,9 @@ theorem psum_mono (l : List K) (f : K → ℝ) (hf : ∀ k ∈ l, 0 ≤ f k) (i 
 /-- A sum of non-negative reals is non-negative (corollary used for the tradable supply, DESIGN 12.6). -/
 theorem lsum_nonneg (s : Finset K) (f : K → ℝ) (hf : ∀ j ∈ s, 0 ≤ f j) : 0 ≤ ∑ j ∈ s, f j :=
   Finset.sum_nonneg hf
+
+/-- Counting sums: with non-negative summands the aggregate is at least the summand of any one present
+row (instantiated by the ORM model for sums with a constant positive summand, engine/orm.go). -/
+theorem lsum_ge_single (s : Finset K) (f : K → ℝ) (k : K) (hk : k ∈ s) (hf : ∀ j ∈ s, 0 ≤ f j) :
+    f k ≤ ∑ j ∈ s, f j :=
+  Finset.single_le_sum hf hk
